@@ -10,3 +10,4 @@ imports them all (`lake build OdcGeo.Props.GenC04`).
 -/
 import OdcGeo.Props.GenC04.TilesSlice
 import OdcGeo.Props.GenC04.TilesSz
+import OdcGeo.Props.GenC04.VTilesSz
